@@ -573,6 +573,9 @@ func scenarios(thorough bool) []Scenario {
 		playerListScenario(1),
 		playerListScenario(2),
 		chunkScenario(2),
+		marshalScenario(2, false),
+		marshalScenario(2, true),
+		nbtValueScenario(2),
 	}
 	if thorough {
 		s = append(s,
@@ -580,6 +583,7 @@ func scenarios(thorough bool) []Scenario {
 			queueScenario("linked/3prod x1/2cons/consumers-first", linked, 3, 1, 2, true),
 			poolScenario(3, true),
 			nbtCacheScenario(3),
+			nbtValueScenario(3),
 		)
 	}
 	return s
